@@ -1007,6 +1007,21 @@ def _r7(ctx, funcs):
                     fe = dict(zip(want_atoms, full))
                     if all(fe[k] == env[k] for k in env):
                         skip[full] = skip.get(full, False) or v
+    # ... and the `device` it tests is the NORMALISED one ('none' -> ''): no path of the
+    # iteration leads from a filtering `continue` test to a re-binding of device
+    dev_stores = [n_ for st_ in ast.walk(dp.node) if isinstance(st_, ast.Assign)
+                  and any(dotted(t_) == "device" for t_ in st_.targets)
+                  and not isinstance(st_.targets[0], ast.Tuple)
+                  for n_ in cfg.nodes_of(st_)]
+    loops_ = [l_ for l_ in ast.walk(dp.node) if isinstance(l_, ast.For)]
+    heads_ = [h_ for l_ in loops_ for h_ in cfg.nodes_of(l_)]
+    tests_ = [n_ for n_ in cfg.nodes if n_.kind == "test" and n_.expr is not None
+              and any(dotted(x_) == "fstypes" for x_ in ast.walk(n_.expr))]
+    if any(cfg.path_exists(t_, d_, avoid=heads_) for t_ in tests_ for d_ in dev_stores):
+        okshape = False
+        ctx.advisory("C17.R7 disk_partitions: the all=False filter tests `device` before it is "
+                     "normalised ('none' -> ''): an entry whose device is the literal string "
+                     "'none' passes the filter and is reported without a device")
     filt = okshape and nskip > 0 and all(
         skip.get((a, d, f), False) == ((not a) and ((not d) or (not f)))
         for a in (False, True) for d in (False, True) for f in (False, True))
